@@ -6,7 +6,9 @@ Memory is a partial map given by sparse chunks.  For a run of the disassembler o
 `as`, and a re-assembly of its output with contents `re`:
 * `inside`   – every address of every reported area holds a byte of the loaded image;
 * `disjoint` – no two reported areas share an address (in particular no code area meets a data area);
-* `agree`    – on every address of every reported area the re-assembled program holds the image's byte. -/
+* `agree`    – on every address of every reported area the re-assembled program holds the image's byte;
+* `entriesCovered` – "disassembling … starting at its entry points": every entry address given on the command line that holds a
+  byte of the loaded image lies in a reported code area (a listing that leaves the entry points out disassembles nothing of the program). -/
 namespace AslModel.Dis.Spec
 
 abbrev Mem := List (Nat × List UInt8)
@@ -15,6 +17,15 @@ def memAt (m : Mem) (a : Nat) : Option UInt8 :=
   match m.find? (fun c => c.1 ≤ a && a < c.1 + c.2.length) with
   | some c => c.2[a - c.1]?
   | none => none
+
+/-- the memory described by a list of (address, byte) cells (what a hex-file decoder of `Spec/Hex.lean` returns): runs of
+consecutive addresses as one chunk, order kept -/
+def memOfCells : List (Nat × UInt8) → Mem
+  | [] => []
+  | (a, b) :: rest =>
+    match memOfCells rest with
+    | (s, d) :: m => if s = a + 1 then (a, b :: d) :: m else (a, [b]) :: (s, d) :: m
+    | [] => [(a, [b])]
 
 structure Area where
   first : Nat
@@ -38,6 +49,9 @@ def firstDiff (img re : Mem) (as : List Area) : Option Nat :=
   (as.flatMap Area.addrs).find? (fun a => memAt img a ≠ memAt re a || (memAt re a).isNone)
 
 def agree (img re : Mem) (as : List Area) : Bool := (firstDiff img re as).isNone
+
+def entriesCovered (img : Mem) (as : List Area) (entries : List Nat) : Bool :=
+  entries.all (fun e => (memAt img e).isNone || as.any (fun r => !r.isData && r.first ≤ e && e ≤ r.last))
 
 /-! reading the summary block of dasl's output -/
 
